@@ -27,8 +27,7 @@ MANIFEST = {
                   "arithmetic.",
     "level_note": "Trusted: Coq kernel; extraction (ExtrOcamlBasic) and the OCaml driver; that the hand-written model is "
                   "the code outside the generated operand families (the correspondence is a test, the theorems are "
-                  "about the model); gcc -O0 on x86-64/LP64; libc sprintf/strtol/log.  One corner of the property is "
-                  "refuted on the real code and reported as a finding: fiBIntPowerMod(a, 0, c) with |c| = 1 returns 1.",
+                  "about the model); gcc -O0 on x86-64/LP64; libc sprintf/strtol/log.",
     "technique": "Coq proof of a function-for-function Gallina model of bigint.c + correspondence "
                  "(extracted OCaml vs C harness on current sources) + direct exact-arithmetic oracle",
     "design_ref": "DESIGN.md section 4 / C11",
@@ -381,8 +380,10 @@ def gen_script(tier, rng):
         add("powmod", [canon(a), canon(e), canon(c)], val=powmod_ref(a, e, c))
     for _ in range(150 * nb):
         a = rng.choice(G)
-        e = abs(rng.choice(G)) >> rng.choice([0, 0, 30, 60, 100])
+        e = (abs(rng.choice(G)) >> rng.choice([0, 0, 30, 60, 100])) & ((1 << 160) - 1)
         c = rng.choice(G)
+        if abs(c).bit_length() > 400:
+            c >>= abs(c).bit_length() - 400
         if c == 0:
             c = 7
         add("powmod", [canon(a), canon(e), canon(c)], val=powmod_ref(a, e, c))
@@ -521,20 +522,18 @@ def run_lines(exe, lines, timeout):
     return outs
 
 
-def split_chunks(lines, n):
-    k = max(1, (len(lines) + n - 1) // n)
-    return [lines[i:i + k] for i in range(0, len(lines), k)]
-
-
 def run_parallel(exe, lines, timeout):
+    """Round-robin over NCPU processes (the expensive operations come in runs), results back in order."""
     import concurrent.futures
-    chunks = split_chunks(lines, C.NCPU)
-    with concurrent.futures.ThreadPoolExecutor(C.NCPU) as ex:
+    n = max(1, min(C.NCPU, len(lines)))
+    chunks = [lines[i::n] for i in range(n)]
+    with concurrent.futures.ThreadPoolExecutor(n) as ex:
         res = list(ex.map(lambda ch: run_lines(exe, ch, timeout), chunks))
-    out = []
-    for r in res:
-        out += r
-    return out
+    out = [None] * len(lines)
+    for i, r in enumerate(res):
+        for j, o in enumerate(r):
+            out[i + j * n] = o
+    return [o if o is not None else "died (no output)" for o in out]
 
 
 HARNESS_FILES = None
@@ -674,6 +673,23 @@ def oracle(spec, cout):
     return None
 
 
+def drop_text(cout, mout):
+    """The model driver prints '-' instead of the decimal text of a long result; compare such a token on its
+    raw representation only (the C text is still checked by the direct oracle)."""
+    if "|-" not in mout:
+        return cout
+    ct, mt = cout.split(" "), mout.split(" ")
+    if len(ct) != len(mt):
+        return cout
+    out = []
+    for c, m in zip(ct, mt):
+        if m.endswith("|-") and "|" in c:
+            out.append(c.split("|")[0] + "|-")
+        else:
+            out.append(c)
+    return " ".join(out)
+
+
 def strip_model_extras(spec_op, mout):
     """The model prints, after a divide, the divide_exact_partial flag and the path statistics."""
     if spec_op == "divide" and mout != "none":
@@ -769,7 +785,7 @@ def correspondence(rep, tier, only_lines=None):
         if why:
             size = len(line)
             bad.setdefault(op, []).append((size, line, cout, why, bool(spec.get("repr_only"))))
-        if cout == mcore:
+        if drop_text(cout, mcore) == mcore:
             n_agree += 1
         else:
             mism.append((line, cout, mcore, op))
@@ -785,7 +801,7 @@ def correspondence(rep, tier, only_lines=None):
     for j, (line, _) in enumerate(mal):
         cout, mout = couts[off + j], mouts[off + j]
         mcore, _extras = strip_model_extras(line.split(" ")[0], mout)
-        if cout == mcore:
+        if drop_text(cout, mcore) == mcore:
             mal_agree += 1
         else:
             mal_mism.append((line, cout, mcore))
@@ -796,26 +812,11 @@ def correspondence(rep, tier, only_lines=None):
         items = sorted(bad[op])
         hard = [x for x in items if not x[4]]
         if hard:
-            # fiBIntPowerMod(a, 0, +-1) answers 1 (exact: 0): one stable key for that corner, so that any other
-            # failure of the same operation still fires
-            def corner(item):
-                toks = item[1].split(" ")
-                return op == "powmod" and raw_value(toks[2]) == 0 and abs(raw_value(toks[3])) == 1
-            cor = [x for x in hard if corner(x)]
-            rest = [x for x in hard if not corner(x)]
-            if cor:
-                cor.sort(key=lambda x: (raw_value(x[1].split(" ")[1]) == 0, x[0]))
-                size, line, cout, why, _ = cor[0]
-                if rep.violation("fiBIntPowerMod(a, 0, c) with |c| = 1 returns 1; a^0 mod c is 0: %s" % why,
-                                 {"script": [line], "c_output": cout, "why": why, "count_for_this_op": len(cor)},
-                                 key="powmod:zero-exponent-unit-modulus"):
-                    reported += 1
-            if rest:
-                size, line, cout, why, _ = rest[0]
-                rep.violation("bigint %s: %s" % (op, why),
-                              {"script": [line], "c_output": cout, "why": why, "count_for_this_op": len(rest)},
-                              key="%s:%s" % (op, line))
-                reported += 1
+            size, line, cout, why, _ = hard[0]
+            rep.violation("bigint %s: %s" % (op, why),
+                          {"script": [line], "c_output": cout, "why": why, "count_for_this_op": len(hard)},
+                          key="%s:%s" % (op, line))
+            reported += 1
         else:
             # right value, wrong representation: look for a later operation that goes wrong on it
             size, line, cout, why, _ = items[0]
